@@ -5,7 +5,7 @@
     encodeLossyWithAlpha, lossy.DefaultConfig); documented values: Opts/OptsDoc.v. *)
 From Coq Require Import List ZArith Bool.
 From WebpGen Require Consts Funcs.
-From Webp Require Import Base.Res Opts.OptsModel Opts.OptsDoc Opts.OptsProof.
+From Webp Require Import Base.Res Opts.OptsModel Opts.OptsDoc Opts.OptsProof Opts.OptsAnim.
 Import ListNotations.
 Open Scope Z_scope.
 
@@ -156,3 +156,115 @@ Theorem C20_quality_in_range_when_target_or_refuted :
            (cTargetSize c >? 0) || fl_gt (cTargetPSNR c) 0 = true -> cQMin c <= cQuality c <= cQMax c)).
 Proof. exact quality_in_range_when_target_or_refuted. Qed.
 Print Assumptions C20_quality_in_range_when_target_or_refuted.
+
+(** ---- every field, from the regenerated tables ---- *)
+
+(** Every non-bool field of EncoderOptions (int, float32, Preset, blob) is constrained by at
+    least one check of validateConfig. *)
+Theorem C20_every_numeric_field_validated :
+  forallb (fun f => (kind_of f =? 0) || negb (match field_atoms f with [] => true | _ => false end)) field_ids = true.
+Proof. exact every_numeric_field_validated. Qed.
+Print Assumptions C20_every_numeric_field_validated.
+
+(** Every float32 field is checked for NaN, for +-Inf and for negative values. *)
+Theorem C20_every_float_field_rejects_nan_inf_negative :
+  forallb (fun f => negb (kind_of f =? 1) ||
+                    (has_atom (fun a => match a with F.VNaN _ => true | _ => false end) f &&
+                     has_atom (fun a => match a with F.VInf _ => true | _ => false end) f &&
+                     has_atom (fun a => match a with F.VLt _ 0 => true | _ => false end) f)) field_ids = true.
+Proof. exact every_float_field_rejects_nan_inf_negative. Qed.
+Print Assumptions C20_every_float_field_rejects_nan_inf_negative.
+
+(** Every int field except TargetSize ("target size in bytes") has an upper bound. *)
+Theorem C20_every_int_field_bounded_above :
+  forallb (fun f => negb ((kind_of f =? 2) || (kind_of f =? 4)) || (f =? F.fld_TargetSize) ||
+                    has_atom (fun a => match a with F.VGt _ _ | F.VResGt _ _ _ _ | F.VGtRes _ _ _ _ => true | _ => false end) f) field_ids = true.
+Proof. exact every_int_field_bounded_above_except_target_size. Qed.
+Print Assumptions C20_every_int_field_bounded_above.
+
+(** ---- documentation conformance, field by field ---- *)
+
+(** A field left at its DefaultOptions() value resolves to the documented default whatever the
+    other fields are (SNS 50, filter strength 60, strong filter, 4 segments, 1 pass, QMax 100,
+    QMin 0, 1 partition, sharpness 0, method 4, lossless fast-filtered alpha at quality 100). *)
+Theorem C20_default_resolves_to_documented : forall o q ha,
+  (oSNSStrength o = -1 -> cSNS (lossy_config o q ha) = 50) /\
+  (oFilterStrength o = -1 -> cFStrength (lossy_config o q ha) = 60) /\
+  (oFilterType o = -1 -> cFType (lossy_config o q ha) = 1) /\
+  (oSegments o = -1 -> cSegments (lossy_config o q ha) = 4) /\
+  (oPass o = -1 -> cPass (lossy_config o q ha) = 1) /\
+  (oQMax o = -1 -> cQMax (lossy_config o q ha) = 100) /\
+  (oQMin o = 0 -> cQMin (lossy_config o q ha) = 0) /\
+  (oPartitions o = 0 -> cPartitions (lossy_config o q ha) = 0) /\
+  (oFilterSharpness o = 0 -> cFSharpness (lossy_config o q ha) = 0) /\
+  (oMethod o = 4 -> cMethod (lossy_config o q ha) = 4) /\
+  (oAlphaCompression o = -1 -> aMethod (alpha_config o) = 1) /\
+  (oAlphaFiltering o = -1 -> aFilter (alpha_config o) = 4) /\
+  (oAlphaQuality o = -1 -> aQuality (alpha_config o) = 100).
+Proof. exact default_resolves_to_documented. Qed.
+Print Assumptions C20_default_resolves_to_documented.
+
+(** The zero value EncoderOptions{} is accepted and is not DefaultOptions(). *)
+Theorem C20_zero_value_options_resolve_to : forall w h ha, 1 <= w <= 16383 -> 1 <= h <= 16383 ->
+  effective (Some zero_opts) w h ha =
+  Ok (ELossy (mkL 0 0 (FFin 0) 0 0 0 0 0 0 4 1 0 None 0 0 (if ha then 1 else 0)) (mkA 0 0 0 0) false false (0, 0, 0)).
+Proof. exact zero_value_options_resolve_to. Qed.
+Print Assumptions C20_zero_value_options_resolve_to.
+
+(** ---- animation.EncodeOptions: never validated, total for every int value ---- *)
+
+Theorem C20_anim_source_matches_model : anim_source_matches_model.
+Proof. exact anim_source_matches_model_holds. Qed.
+Print Assumptions C20_anim_source_matches_model.
+
+Theorem C20_anim_loop_count_total : forall v, 0 <= clamp_loop_count v <= 65535.
+Proof. exact loop_count_total. Qed.
+Print Assumptions C20_anim_loop_count_total.
+
+Theorem C20_anim_sanitize_keyframes_total : forall kmin kmax, is_int kmin -> is_int kmax ->
+  is_int (fst (sanitize_keyframes kmin kmax)) /\ is_int (snd (sanitize_keyframes kmin kmax)) /\
+  (sanitize_keyframes kmin kmax = (0, 0) \/
+   (fst (sanitize_keyframes kmin kmax) < snd (sanitize_keyframes kmin kmax) /\ 2 <= snd (sanitize_keyframes kmin kmax))).
+Proof. exact sanitize_keyframes_total. Qed.
+Print Assumptions C20_anim_sanitize_keyframes_total.
+
+(** "at most 30 cached frames": for kmin >= 0; refuted for kmin = MinInt, kmax = 2 (the
+    subtraction kmax - kmin wraps).  Without behavioural effect today: Kmin is never read. *)
+Theorem C20_anim_keyframe_window_partial : forall kmin kmax, 0 <= kmin -> is_int kmin -> is_int kmax -> 2 <= kmax ->
+  snd (sanitize_keyframes kmin kmax) - fst (sanitize_keyframes kmin kmax) <= 30.
+Proof. exact sanitize_keyframes_window. Qed.
+Print Assumptions C20_anim_keyframe_window_partial.
+
+Theorem C20_anim_keyframe_window_refuted :
+  exists kmin kmax, is_int kmin /\ is_int kmax /\ 2 <= kmax /\
+    snd (sanitize_keyframes kmin kmax) - fst (sanitize_keyframes kmin kmax) > 30.
+Proof. exact sanitize_keyframes_window_refuted. Qed.
+Print Assumptions C20_anim_keyframe_window_refuted.
+
+(** Frames of an animation are encoded without validateConfig.  Lossy: for EVERY int quality
+    the configuration is inside the codec's ranges (lossy.DefaultConfig clamps). *)
+Theorem C20_anim_lossy_frame_config_total : forall q ha c a e s m,
+  anim_frame_config false q ha = ELossy c a e s m -> lossy_pre c /\ alpha_pre a.
+Proof. exact anim_lossy_frame_config_total. Qed.
+Print Assumptions C20_anim_lossy_frame_config_total.
+
+(** Lossless: decided by the regenerated source: the VP8L configuration is in range for EVERY int
+    quality (when encodeFrameForAnimation clamps), or (pinned tree) quality 101 reaches the VP8L
+    encoder unclamped.  Known finding anim-hang-lossless-quality-out-of-range. *)
+Theorem C20_anim_lossless_frame_total_or_refuted :
+  (forall q l m, anim_frame_config true q false = ELossless l m -> lossless_pre l) \/
+  (F.anim_frame_quality_clamp = [] /\
+   ~ (forall q l m, anim_frame_config true q false = ELossless l m -> lossless_pre l)).
+Proof. exact anim_lossless_frame_total_or_refuted. Qed.
+Print Assumptions C20_anim_lossless_frame_total_or_refuted.
+
+Theorem C20_anim_lossless_frame_config_in_range_partial : forall q l m, 0 <= q <= 100 ->
+  anim_frame_config true q false = ELossless l m -> lossless_pre l.
+Proof. exact anim_lossless_frame_config_in_range. Qed.
+Print Assumptions C20_anim_lossless_frame_config_in_range_partial.
+
+(** Kmin is documented but never read after being sanitized (regenerated read counts). *)
+Theorem C20_anim_every_field_read_or_kmin_unused :
+  anim_unused_fields = [] \/ anim_unused_fields = [F.afld_Kmin].
+Proof. exact anim_every_field_read_or_kmin_unused. Qed.
+Print Assumptions C20_anim_every_field_read_or_kmin_unused.
